@@ -26,20 +26,19 @@ Theorem bucket_counts_spec :
 Proof. exact counts_are_ideal. Qed.
 Print Assumptions bucket_counts_spec.
 
-(* the comparison key of the double instrument is the value; of the long instrument it is the value as long as
-   |v| <= 2^53 (the full statement, for every int64, is refuted below: F8b) *)
+(* the comparison "boundary < value" the bucket search makes is exact: for every double, and for every int64 -
+   also beyond 2^53, where the comparison used to go through a rounding conversion to double (F8b, repaired) *)
 Theorem bucket_spec_double_key : forall s xs, key_exact KDbl s xs.
 Proof. exact key_exact_dbl. Qed.
 Print Assumptions bucket_spec_double_key.
-Theorem bucket_spec_long_partial :
-  forall s xs, 0 <= s -> (forall v, In v xs -> Z.abs v <= 2 ^ 53) -> key_exact KLong s xs.
+Theorem bucket_spec_long :
+  forall s xs, 0 <= s -> (forall v, In v xs -> - 2 ^ 63 <= v < 2 ^ 63) -> key_exact KLong s xs.
 Proof. exact key_exact_long. Qed.
-Print Assumptions bucket_spec_long_partial.
-Theorem bucket_spec_long_refuted :
-  exists s bs v, sorted bs /\ 0 <= s /\
-    ~ In_bucket bs (bucket bs (o_key (long_ops s) v)) (true_key KLong s v).
-Proof. exact bucket_spec_long_refuted_lemma. Qed.
-Print Assumptions bucket_spec_long_refuted.
+Print Assumptions bucket_spec_long.
+Theorem long_comparison_exact :
+  forall s b v, 0 <= s -> - 2 ^ 63 <= v < 2 ^ 63 -> long_lt s b v = (b <? Z.shiftl v s).
+Proof. exact long_lt_exact. Qed.
+Print Assumptions long_comparison_exact.
 
 (* ---- sentence 2: the bucket counts add up to count, which is the number of values ---- *)
 Theorem counts_sum_to_count :
@@ -119,18 +118,14 @@ Theorem long_add_assoc_comm : (forall s, add_assoc (long_ops s)) /\ (forall s, a
 Proof. exact (conj (fun _ => xadd_assoc) (conj (fun _ => xadd_comm) fadd_comm)). Qed.
 Print Assumptions long_add_assoc_comm.
 
-(* Diff gives the delta's counts and count back; the sum is not computed (F8c) *)
-Theorem diff_inverts_merge_partial :
-  forall o c xs ys,
+(* Diff inverts Merge: counts, count and sum of the delta come back (F8c, repaired: the sum used to stay 0) *)
+Theorem diff_inverts_merge :
+  forall o c xs ys, exact_add o ->
     let d := diff o (agg o c xs) (merge o (agg o c xs) (agg o c ys)) in
-    h_counts d = h_counts (agg o c ys) /\ h_count d = h_count (agg o c ys) /\ h_bounds d = h_bounds (agg o c ys).
+    h_counts d = h_counts (agg o c ys) /\ h_count d = h_count (agg o c ys) /\ h_bounds d = h_bounds (agg o c ys) /\
+    h_sum d = h_sum (agg o c ys).
 Proof. exact diff_inverts_merge_lemma. Qed.
-Print Assumptions diff_inverts_merge_partial.
-Theorem diff_inverts_merge_sum_refuted :
-  exists o c xs ys, exact_add o /\
-    h_sum (diff o (agg o c xs) (merge o (agg o c xs) (agg o c ys))) <> h_sum (agg o c ys).
-Proof. exact diff_sum_refuted_lemma. Qed.
-Print Assumptions diff_inverts_merge_sum_refuted.
+Print Assumptions diff_inverts_merge.
 
 (* readers: for every history of Record / Collect over any number of readers of mixed temporality, a delta reader
    is handed the aggregation of exactly the values since its previous collection, a cumulative reader that of all
@@ -166,7 +161,7 @@ Print Assumptions machine_double_fields.
 Theorem model_meets_spec :
   forall k s c x xs,
     0 <= s -> sorted (c_bounds c) -> Z.of_nat (length xs) < U64 -> key_exact k s xs -> within_sentinels k s xs ->
-    x_minmax x = c_rmm c -> x_sum_tainted x = false ->
+    x_minmax x = c_rmm c -> x_basis x = xs ->
     check_point k s (c_bounds c) x xs (point_of (agg (ops_of k s) c xs)) = [].
 Proof. exact check_point_agg. Qed.
 Print Assumptions model_meets_spec.
@@ -189,10 +184,10 @@ Theorem model_meets_spec_readers :
       (map (option_map point_of) (run_sops (ops_of k s) c temps (sstate0 (length temps)) l)) = [].
 Proof. exact series_meets_spec_lemma. Qed.
 Print Assumptions model_meets_spec_readers.
-(* the hypothesis on the values holds for every finite double and for every int64 with |v| <= 2^53 (F8b beyond) *)
+(* the hypothesis on the values holds for every finite double and for every int64 *)
 Theorem good_values :
   (forall s b d, 0 <= s -> decode b = Some d -> good_val KDbl s (to_scale s d)) /\
-  (forall s v, 0 <= s -> Z.abs v <= 2 ^ 53 -> good_val KLong s v).
+  (forall s v, 0 <= s -> - 2 ^ 63 <= v < 2 ^ 63 -> good_val KLong s v).
 Proof. exact (conj good_val_double good_val_long). Qed.
 Print Assumptions good_values.
 
